@@ -239,6 +239,26 @@ pub fn build_cases(ctx: &Ctx) -> Vec<Vec<String>> {
             }
         }
     }
+    // three (four) children of one element: two that fold onto one identifier plus the name that the
+    // numbered identifier would get (Foo, foo, foo_1 ...), in every order, as elements and as attributes
+    for trio in [["Foo", "foo", "foo_1"], ["a-b", "a_b", "a_b_1"], ["type", "Type", "r_type"], ["Foo", "FOO", "foo"]] {
+        let perms = [[0usize, 1, 2], [0, 2, 1], [1, 0, 2], [1, 2, 0], [2, 0, 1], [2, 1, 0]];
+        for p in perms {
+            let kids: String = p.iter().map(|&i| format!("<{}>t</{}>", trio[i], trio[i])).collect();
+            let structs: String = p.iter().map(|&i| format!("<{} k=\"v\"/>", trio[i])).collect();
+            let attrs: String = p.iter().map(|&i| format!(" {}=\"v\"", trio[i])).collect();
+            for t in [format!("<r>{}</r>", kids), format!("<r>{}</r>", structs), format!("<r{}/>", attrs), format!("<r><p{}>{}</p></r>", attrs, kids)] {
+                let c = vec![t];
+                if seen.insert(c.clone()) {
+                    cases.push(c);
+                }
+            }
+        }
+    }
+    // elements named like derive items, type names and option words (anything a renderer might keep a
+    // process-wide list of): the observation renders with a derive list naming Debug, Clone, PartialEq
+    cases.push(vec!["<r><debug k=\"v\"/><clone k=\"v\"><debug/></clone><PartialEq k=\"v\"/><serialize k=\"v\"/><deserialize k=\"v\"/></r>".to_string()]);
+    cases.push(vec!["<debug><clone k=\"v\"/></debug>".to_string(), "<debug><partial_eq k=\"v\"/></debug>".to_string()]);
     // very long names (directly, and through the concatenation of ten nested names)
     for len in [40usize, 63, 64, 65, 100, 300] {
         let name = format!("n{}", "x".repeat(len));
@@ -370,8 +390,10 @@ pub fn run(ctx: &Ctx) {
     // 2. repetition on the shipped library (hooks off), two processes per chunk
     let fresh = ctx.tier.pick(8, 16);
     let mut validated = 0u64;
+    let mut shared: Option<Vec<(usize, String)>> = None;
     match (free_running(ctx, &cases, fresh), free_running_opt(ctx, &cases, 1, true)) {
         (Ok(a), Ok(b)) => {
+            shared = Some(a.iter().map(|(n, h, _)| (*n, h.clone())).collect());
             for (i, ((na, ha, outs), (nb, hb, _))) in a.iter().zip(b.iter()).enumerate() {
                 validated += 1;
                 let default_run = subject::observe_history(&cases[i]);
@@ -417,6 +439,47 @@ pub fn run(ctx: &Ctx) {
         }
         (Err(e), _) | (_, Err(e)) => ctx.machinery_error(format!("hooks-off helper: {}", e)),
     }
+    // 2b. a process of its own for some cases (state that the first call of a process sets up for all
+    // later ones is invisible when thousands of cases share a helper process): every 97th case and the
+    // cases whose names are words of the derive lists used by the observation
+    let solo: Vec<usize> = (0..cases.len()).filter(|i| i % 97 == 0 || cases[*i].iter().any(|d| d.contains("<debug"))).collect();
+    let solo_res = par_for(
+        solo.len() as u64,
+        ctx.threads,
+        1,
+        None,
+        |_| 0u64,
+        |acc, k| {
+            let i = solo[k as usize];
+            if let Ok(r) = free_running(ctx, std::slice::from_ref(&cases[i]), 2) {
+                *acc += 1;
+                let (n, h, outs) = &r[0];
+                if *n > 1 {
+                    ctx.report(Violation {
+                        class: "output-varies-between-runs".into(),
+                        summary: format!(
+                            "in a process of its own, repeated runs give {} different outputs: {} | docs: {}",
+                            n,
+                            if outs.len() > 1 { diff_hint(&outs[0], &outs[1]) } else { String::new() },
+                            cases[i].join(" ++ ")
+                        ),
+                        replay: json!({"docs": cases[i]}),
+                        rank: i as u64,
+                    });
+                } else if let Some(sh) = shared.as_ref() {
+                    if sh[i].0 == 1 && sh[i].1 != *h {
+                        ctx.report(Violation {
+                            class: "differs-between-processes".into(),
+                            summary: format!("a process of its own and a process shared with other cases render differently | docs: {}", cases[i].join(" ++ ")),
+                            replay: json!({"docs": cases[i]}),
+                            rank: i as u64,
+                        });
+                    }
+                }
+            }
+        },
+    );
+    ctx.set("cases_run_in_a_process_of_their_own", json!(solo_res.accs.iter().sum::<u64>()));
     ctx.set("traces_validated_against_impl", json!(validated));
     ctx.set("free_running_fresh_threads_per_case", json!(fresh + 1));
     ctx.set(
